@@ -55,6 +55,7 @@ macro_rules! for_prefix {
 
 pub mod c26;
 pub mod c27;
+pub mod c33;
 
 #[cfg(all(kani, test))]
 mod replay_gen;
